@@ -106,10 +106,12 @@ def gen_cases(tier, seed):
                     yield {'P': prog, 'E': [], 'after_failed_replay': True}
                     yield {'P': prog, 'E': [es[1]] if len(es) > 1 and es[1] else [], 'after_failed_replay': True}
                 if tier == 'thorough' and n <= 2:
+                    structural = ('drop', 'ins', 'swap')
                     for e1, e2 in itertools.combinations([e for e in es if e], 2):
-                        if e1[0] in ('drop', 'ins', 'swap') and e2[0] in ('arg', 'kwval', 'drop', 'swap'):
-                            continue  # indices would shift; pairs are applied only when positions stay valid
-                        yield {'P': prog, 'E': [e2, e1] if e2[0] in ('drop', 'ins', 'swap') else [e1, e2]}
+                        if e1[0] in structural and e2[0] in structural:
+                            continue  # two structural edits would shift each other's positions; pairs combine at most one
+                        # value edits are applied first (their indices refer to P), the structural one afterwards
+                        yield {'P': prog, 'E': [e2, e1] if e1[0] in structural else [e1, e2]}
     # long tails: one alias called 1..12 times; edits at the far end (ordinals >= 10)
     for fn in ('out_a', 'out_static', 'out_hdl'):
         for n in range(1, 13):
